@@ -1,6 +1,6 @@
 // Recording Impl for formak::runtime::ManagedFilter (the header under test comes from /repo).
 // Line protocol on stdin:
-//   new <cfg> <t0 bits>                      cfg = 3*K + combo ; combo 0: control+calibration, 1: control only, 2: calibration only
+//   new <cfg> <t0 bits>                      cfg = 4*K + combo ; combo 0: control+calibration, 1: control only, 2: calibration only, 3: neither
 //   tick <out bits> <n> (<ts bits> <id>)*   prints the returned state's call log:  p <dt bits>|s <id>|...
 #include <formak/runtime/ManagedFilter.h>
 
@@ -110,7 +110,8 @@ std::unique_ptr<Runner> makeK(int combo, double t0) {
   switch (combo) {
     case 0: return std::make_unique<RunnerT<K, true, true>>(t0);
     case 1: return std::make_unique<RunnerT<K, true, false>>(t0);
-    default: return std::make_unique<RunnerT<K, false, true>>(t0);
+    case 2: return std::make_unique<RunnerT<K, false, true>>(t0);
+    default: return std::make_unique<RunnerT<K, false, false>>(t0);
   }
 }
 
@@ -133,7 +134,7 @@ int main() {
       int cfg;
       std::string t0;
       in >> cfg >> t0;
-      cur = make(cfg / 3, cfg % 3, unbits(t0), std::make_integer_sequence<int, N>{});
+      cur = make(cfg / 4, cfg % 4, unbits(t0), std::make_integer_sequence<int, N>{});
       std::cout << "ok" << std::endl;
     } else if (op == "tick") {
       std::string o;
